@@ -11,7 +11,7 @@
  "instrument_flags": ["--nondet-static-exclude", "numchars"],
  "cbmc": ["--object-bits", "10"],
  "native": true,
- "timeout": 5,
+ "timeout": 300,
  "assumptions": ["static table numchars keeps its initialiser (not const in the source, but no function under contract has it in its assigns clause); DFCC would otherwise start it nondeterministic",
                  "document object size <= JS_MAX (24 quick / 48 thorough), key length <= JS_KMAX; the loop argument is inductive, the bounds only size the symbolic objects",
                  "skip_ws, match_str, skip_value replaced by their contracts, each enforced in its own group (assume-guarantee)"]
